@@ -538,6 +538,21 @@ def judge_crash(case, recovery_content):
             call(store.store_metadata, subject, next(iter(case._paths.values())))
         if not s.ok:
             probs.append(("recovery-store-metadata-failed", {"error": s.brief(), "msg": s.msg}))
+        else:
+            # later life of the interrupted document: delete it, store it again, read it back
+            docpath = next(iter(case._paths.values()))
+            with open(docpath, "rb") as fh:
+                want = fh.read()
+            d2 = call(store.delete_metadata, subject, f) if f else call(store.delete_metadata, subject)
+            gone = call(store.retrieve_metadata, subject, f) if f else call(store.retrieve_metadata, subject)
+            if gone.ok:
+                read_all_and_close(gone.value)
+            s2 = call(store.store_metadata, subject, docpath, f) if f else call(store.store_metadata, subject, docpath)
+            g2 = (call(store.retrieve_metadata, subject, f) if f else call(store.retrieve_metadata, subject)) if s2.ok else None
+            got = read_all_and_close(g2.value) if (g2 is not None and g2.ok) else None
+            if not d2.ok or gone.ok or not s2.ok or got != want:
+                probs.append(("second-recovery-round-failed", {"delete_metadata": d2.brief(), "retrieve_after_delete": gone.brief(),
+                                                               "store_metadata": s2.brief(), "read_back_equal": got == want}))
     # later life: what the crash left behind must not trip LATER, different calls on the other pids
     for b in case.pids:
         if b == subject or case.bystander_before[b]["pid_ref"] is None:
